@@ -13,7 +13,7 @@ def nextConstCmp : List Seg → Bytes
   | [] => []
   | s :: rest =>
     if s.isParam then nextConstCmp rest
-    else (if s.const.length > 1 then trimRight s.const SLASH else s.const)
+    else cmpOfConst s.const
 
 /-- Invariant of a segment list after `addParameterMetaInfo`:
     * a constant's `Length` is the length of its text;
@@ -142,12 +142,12 @@ theorem markLast_pre0 : (l : List Seg) → (∀ s ∈ l, RawOK s) → Pre0 (mark
   | [s], h => by
     have hs := h s (List.mem_cons_self ..)
     unfold markLast
-    exact ⟨hs.1, fun _ => rfl, fun hp => ⟨(hs.2.2 hp).2, (hs.2.2 hp).1⟩, trivial⟩
+    exact ⟨hs.1, fun _ => rfl, fun hp => ⟨(hs.2.2.1 hp).2, (hs.2.2.1 hp).1⟩, trivial⟩
   | s :: t :: rest, h => by
     have hs := h s (List.mem_cons_self ..)
     have ih := markLast_pre0 (t :: rest) (fun x hx => h x (List.mem_cons_of_mem _ hx))
     unfold markLast
-    exact ⟨hs.1, fun hh => (by rw [hs.2.1] at hh; cases hh), fun hp => ⟨(hs.2.2 hp).2, (hs.2.2 hp).1⟩, ih⟩
+    exact ⟨hs.1, fun hh => (by rw [hs.2.1] at hh; cases hh), fun hp => ⟨(hs.2.2.1 hp).2, (hs.2.2.1 hp).1⟩, ih⟩
 
 /-- Every parsed pattern satisfies the matcher invariant. -/
 theorem parseRoute_metaOK {p : Bytes} {pp : Parser} (h : parseRoute p = some pp) : MetaOK pp.segs := by
